@@ -103,9 +103,14 @@ def render_ovf(body, rng, style):
            "case": {1: "vmDisk1", 2: "vmdisk1"}}[ids]
     href = {1: "disk one.vmdk", 2: "second-disk ✓.vmdk"}
     po, pr = style.get("po", "ovf"), style.get("pr", "rasd")
+    # attributes of other vocabularies that happen to have the same local names (xml:id, a vendor's fileRef / href / diskId): an
+    # attribute is identified by namespace + local name
+    fa = style.get("foreign_attrs")
+    fa_file = (lambda k: f' xml:id="x{k}" vmw:href="decoy{k}.iso" vmw:id="{fid[3 - k]}"') if fa else (lambda k: "")
+    fa_disk = (lambda k: f' vmw:fileRef="{fid[3 - fm[k]]}" vmw:diskId="{did[3 - k]}" xml:id="d{k}"') if fa else (lambda k: "")
     x = [f'<?xml version="1.0" encoding="UTF-8"?>',
-         f'<{po}:Envelope xmlns:{po}="{OVF_NS["ovf"]}" xmlns:{pr}="{OVF_NS["rasd"]}" xmlns:vssd="{OVF_NS["vssd"]}">',
-         f'<{po}:References>'] + [f'<{po}:File {po}:href="{href[k]}" {po}:id="{fid[k]}" {po}:size="1024"/>' for k in (1, 2)] + [f'</{po}:References>',
+         f'<{po}:Envelope xmlns:{po}="{OVF_NS["ovf"]}" xmlns:{pr}="{OVF_NS["rasd"]}" xmlns:vssd="{OVF_NS["vssd"]}" xmlns:vmw="http://www.vmware.com/schema/ovf">',
+         f'<{po}:References>'] + [f'<{po}:File{fa_file(k) if fa == "before" else ""} {po}:href="{href[k]}" {po}:id="{fid[k]}" {po}:size="1024"{fa_file(k) if fa == "after" else ""}/>' for k in (1, 2)] + [f'</{po}:References>',
          ] + _disk_section(body, style, po, did, fid, fm) + [
          f'<{po}:VirtualSystem {po}:id="vm"><{po}:Info>vm</{po}:Info><{po}:VirtualHardwareSection><{po}:Info>hw</{po}:Info>',
          f'<{po}:Item><{pr}:ElementName>cpu</{pr}:ElementName><{pr}:InstanceID>1</{pr}:InstanceID><{pr}:ResourceType>3</{pr}:ResourceType></{po}:Item>']
@@ -126,7 +131,10 @@ def _disk_section(body, style, po, did, fid, fm):
     direct = all(it["kind"] == "file" for it in items)    # every item names a file directly: the disk section is not consulted
     if direct and style.get("disksection") == "absent":
         return []
-    disks = [] if (direct and style.get("disksection") == "empty") else [f'<{po}:Disk {po}:capacity="8" {po}:diskId="{did[k]}" {po}:fileRef="{fid[fm[k]]}"/>' for k in (1, 2)]
+    fa = style.get("foreign_attrs")
+    fa_disk = (lambda k: f' vmw:fileRef="{fid[3 - fm[k]]}" vmw:diskId="{did[3 - k]}" xml:id="d{k}"') if fa else (lambda k: "")
+    disks = [] if (direct and style.get("disksection") == "empty") else [
+        f'<{po}:Disk{fa_disk(k) if fa == "before" else ""} {po}:capacity="8" {po}:diskId="{did[k]}" {po}:fileRef="{fid[fm[k]]}"{fa_disk(k) if fa == "after" else ""}/>' for k in (1, 2)]
     return [f'<{po}:DiskSection><{po}:Info>disks</{po}:Info>'] + disks + [f'</{po}:DiskSection>']
 
 
@@ -200,7 +208,7 @@ OVF_STYLES = [{"ids": "plain"}, {"ids": "alphabet", "po": "o", "pr": "r"}, {"ids
               {"ids": "words"}, {"ids": "words2", "po": "disk", "pr": "file"}, {"ids": "case"},
               # the same document spelled differently; a DiskSection that is empty / absent where every item names a file directly
               {"ids": "plain", "xml": "squote"}, {"ids": "words", "xml": "comments"}, {"ids": "plain", "xml": "default-ns", "disksection": "empty"},
-              {"ids": "case", "xml": "tagspace", "disksection": "absent"}]
+              {"ids": "case", "xml": "tagspace", "disksection": "absent"}, {"ids": "plain", "foreign_attrs": "before"}, {"ids": "words", "foreign_attrs": "after", "xml": "squote"}]
 VBOX_STYLES = [{}, {"attr_order": True}, {"xml": "squote"}, {"xml": "prefix", "attr_order": True}, {"xml": "comments"}, {"xml": "tagspace"}]
 PVS_STYLES = [{}, {"xml": "squote"}, {"xml": "comments"}, {"xml": "tagspace"}]
 
